@@ -1,5 +1,24 @@
 chk('C11', 'exploration',
-    'bounded-exhaustive BASIS enumeration on the real LPF/BPF: for every configuration (device x order 1..8 [quick {1,4,8}] x cutoff {0.01,0.05,0.1,0.25,0.45}*fs x fs {16,160} GS/s x fs taken from gv or from the fs argument with gv at the other rate) and every record length N in {28,64,257} the response to EVERY unit impulse e_k is taken - that is the complete operator matrix M - through the plain entry point and again through 8 further entry points per device (integer / scaled / retH-mode ndarray, electrical/optical container, noise present / absent / alone / beside a constant, complex dtype, 1-/2-polarisation, n_pol broadcast) with differently permuted basis vectors riding on signal, noise and each polarisation row in the same call; every response must be the matching column of M (1e-10), zero components must stay zero, constants must come back (1e-12), shapes must be preserved. Plus: superposition F(ax+by)==aF(x)+bF(y) and F(x)==M@x for deterministic and seeded fields x 2 (LPF) / 3 (BPF, complex) coefficient pairs x 2 containers; zero phase: responses to a centred impulse / 9-sample rectangle / 17-sample triangle in a 2049-sample record symmetric about the centre over +-(6/fc+50) samples (1e-10 of the peak) with the peak on the impulse; a 13-tone ladder (12 grid tones 0..0.49 fs + the exact cutoff) on 4096 samples evaluated pointwise on the middle half: gain real positive (no phase), <= 1, non-increasing, 6.0 +- 0.1 dB at the cutoff (BW for LPF, +-BW/2 complex exponentials for BPF), through signal and noise paths and both polarisation rows; LPF retH == closed-form Bessel low-pass (own reverse-Bessel polynomial, bisection for the -3 dB point, bilinear pre-warp; 1e-6) == fftshift(freqz_zpk) of an independently designed scipy prototype (1e-9) on N in {28,64,257,4096}, and |retH|^2 == measured two-pass tone gain (1e-3)',
-    'a basis plus superposition pins the operator on the enumerated (order, cutoff, fs, N) grid only: other cutoffs/orders/lengths, records shorter than 28 samples (orders >= 5 need more than the 16-sample padding the statement mentions: scipy rejects them) and fs values other than the two rates are not covered; "away from the edges" is fixed as the middle half of 4096 samples / +-(6/fc+50) of 2049; "6.0 dB" is read as 6.0 +- 0.1; LPF is checked on real-valued input only (complex dtype with zero imaginary part included); scipy.signal.bessel is trusted as a pure function (memoised per worker) and the closed-form reference assumes the documented Bessel model; seeded random fields are alphabet members, not the deciding step',
-    'bounded-exhaustive enumeration of the full impulse basis (operator matrix recovery) with differential oracle between entry points + superposition/constant/symmetry/tone-ladder oracles + closed-form Bessel reference for retH',
+    'bounded-exhaustive BASIS enumeration on the real LPF/BPF. Configuration = device x order 1..8 (quick {1,4,8}; other orders a thin slice at cutoff 0.1) x cutoff '
+    '{0.01,0.05,0.1,0.25,0.45}*fs x fs {16,160} GS/s x fs from gv or (LPF) fs=... with gv at the other rate. For every configuration and N in {n_min,28,64,257} '
+    '(n_min = 17..28, shortest legal record of the order) the response to EVERY unit impulse - the complete operator matrix M - is taken through the plain entry point and '
+    'again through 8 further base kinds per device (int/scaled/retH ndarray, containers with/without/only noise, complex dtype, 1-/2-pol), 18 LPF / 14 BPF extended kinds '
+    '(retH=True mode, amplitudes 1e-12..1e6, ripple on a DC level; quick N<=64) and 57 hardening kinds (15 sample dtypes incl. unsigned / full-scale ints, 5 spellings of '
+    'BW/n/fs, 4 gv call forms, zero / aliased / mixed-dtype noise, strided and Fortran views, fs = 16 Hz; quick N in {n_min,28}), permuted basis vectors on signal, noise and '
+    'both polarisation rows of one call: every response == matching column of M (1e-10 of the amplitude), zero components stay zero, constants return (1e-12), shapes kept, '
+    'write-protected inputs byte-identical. Plus superposition and F(x)==M@x on deterministic, seeded and dtype-quantised fields, chained F(F(x)); zero phase (3 centred '
+    'pulses in 2049 samples, symmetric to 1e-10 of the peak); 13-tone ladder on the middle half of 4096 samples (gain real positive, <=1, non-increasing, 6.0+-0.1 dB at the '
+    'cutoff; also on 7 cutoffs 0.011..0.449); LPF retH == closed-form Bessel (1e-6) == scipy zpk prototype (1e-9) on N in {n_min,28,64,97,257,1025,4096}, |retH|^2 == two-pass '
+    'tone gain (1e-3); history: ONE write-protected input through all ordered pairs (thorough + triples) of 7 gv reconfigurations with/without fs=..., and cutoff / order sweeps '
+    'on one object, judged by the closed-form two-pass gain (1e-6); kernel call-history part: 7 calls under 3 ambient grids vs a fresh interpreter (77 cases). '
+    'quick 49 239 cases / 774 k filter calls, thorough 212 323 / 7.76 M',
+    'pins the operator on the enumerated (order, cutoff, fs, N) grid only: other cutoffs/orders/lengths/rates and records shorter than n_min (scipy rejects them for orders '
+    '>= 5; <= 16 samples is outside the statement) are not covered; 4 amplitudes and 3 (DC, ripple) pairs: a threshold between members escapes; no ripple members in the '
+    'zero-phase part; histories have 2 (thorough 3) steps over 7 grid configurations; "away from the edges" = middle half of 4096 samples / +-(6/fc+50) of 2049; "6.0 dB" is '
+    'read as 6.0 +- 0.1; f16/f32/c64 records are judged at 8 eps of their dtype; LPF is checked on real-valued input only (complex dtype with zero imaginary part included); '
+    'scipy.signal.bessel is trusted as a pure function (memoised per worker) and the closed-form reference assumes the documented Bessel model; seeded random fields are '
+    'alphabet members, not the deciding step',
+    'bounded-exhaustive enumeration of the full impulse basis (operator matrix recovery) with differential oracle between entry points / dtypes / spellings / layouts + '
+    'superposition/constant/symmetry/tone-ladder oracles + closed-form Bessel reference for retH and for call histories on a shared input; fresh-interpreter differential '
+    'oracle for the kernel call-history part',
     'DESIGN.md 5/C11')
